@@ -514,15 +514,6 @@ func (s *sys) Do(op string) (obs string, v *eng.Violation) {
 		feat = []string{"hazard", "none", "whence", whs, "target", target, "offset_sign", sign}
 		got, err := s.dm.Seek(off, wh)
 		post := mod.VerifC10Snapshot(s.dm)
-		// classify by the cursor the modifier actually stored
-		switch {
-		case wh == io.SeekEnd && off != 0 && (post.CurWrOff == uint64(S-off) || (off < 0 && err != nil && post.Root != pre.Root)):
-			// the stored cursor is size-offset, or the call failed after it
-			// had already begun growing the file towards size-offset
-			feat[1] = "seek-end-offset-subtracted"
-		case ok2(wh) && abs < 0 && post.CurWrOff == uint64(abs):
-			feat[1] = "negative-position-stored"
-		}
 		if feat[1] == "none" && pre.ReaderOpen && !pre.HasBuf && s.readerStale {
 			// dm.Seek forwards (offset, whence) to the kept reader, whose size and
 			// offset predate the last change of the DAG
